@@ -4,7 +4,10 @@
 (* "recs"  VERIF_TRACE is a list of recorded calls of the real code, one TLC state each,      *)
 (*         judged with the operators of LinSolve (variables i, ok, why):                      *)
 (*           kind "wls"   computechi2(b, sqivar, A): integer system, every attribute          *)
-(*                        abstracted to the nearby small rational; ok iff all attributes are  *)
+(*                        abstracted to the nearby small rational q, with dev = the largest   *)
+(*                        |observed - q| in units of the tolerance times the natural scale    *)
+(*                        (LinSolve: THE COMPARISON RULE; the harness-measured natural scales  *)
+(*                        natx, naty must be the exact ones); ok iff dev <= 1 and the q are    *)
 (*                        the exact weighted least-squares record;                            *)
 (*           kind "wlsf"  computechi2 on a float system (high signal-to-noise, noise-free):   *)
 (*                        chi2 >= 0 and equal to the weighted residual of the RETURNED yfit,   *)
@@ -26,9 +29,11 @@ VARIABLES i, ok, why, tid, k, h
 WlsWhy(r) ==
   IF ~FullRank(r.A, r.s) THEN "skip"                       \* the statement speaks of full-rank systems only
   ELSE IF r.ret.err THEN "exception"
-  ELSE IF ~r.ret.exact THEN "an attribute is not a small rational"
-  ELSE LET e == ExpectedWLS(r) IN
-       IF r.ret.acoeff # e.acoeff THEN "acoeff"
+  ELSE IF ~AgreesAtNaturalScale(r.ret.dev) THEN "an attribute is further than the tolerance from any small rational"
+  ELSE LET e == ExpectedWLS(r)
+           n == NatScale(r.A, r.b, r.s) IN
+       IF r.ret.natx # n.x \/ r.ret.naty # n.y THEN "natural scale mis-measured"
+       ELSE IF r.ret.acoeff # e.acoeff THEN "acoeff"
        ELSE IF r.ret.yfit # e.yfit THEN "yfit"
        ELSE IF r.ret.chi2 # e.chi2 THEN "chi2"
        ELSE IF r.ret.dof # e.dof THEN "dof"
